@@ -135,7 +135,7 @@ impl QueryEngine {
             .await?;
         #[cfg(feature = "verif-hooks")]
         crate::verif_hooks::pause("query.after_register").await;
-        let planned = self.plan_sql(sql).await;
+        let planned = self.plan_sql_locked(sql).await;
         drop(_guard);
         #[cfg(feature = "verif-hooks")]
         crate::verif_hooks::pause("query.after_plan").await;
@@ -284,7 +284,17 @@ impl QueryEngine {
     /// DML (INSERT, COPY ... TO) and statements (SET ...) are refused before anything runs -
     /// DataFusion executes DDL and SET already while planning, and COPY would write through
     /// the session's object-store handle.
+    ///
+    /// Planning resolves `metrics` by name, and re-registration is a deregister followed by a
+    /// register: the registration lock is held while planning, so a statement is never planned
+    /// in between (it would fail with "table not found").
     async fn plan_sql(&self, sql: &str) -> Result<DataFrame> {
+        let _guard = self.metrics_table_query_lock.lock().await;
+        self.plan_sql_locked(sql).await
+    }
+
+    /// [`Self::plan_sql`] for callers that already hold the registration lock.
+    async fn plan_sql_locked(&self, sql: &str) -> Result<DataFrame> {
         let options = SQLOptions::new()
             .with_allow_ddl(false)
             .with_allow_dml(false)
